@@ -221,7 +221,13 @@ LockSucced(mm, e, r, k) ==
          LET h  == H[i]
              m2 == Check(m0, h.depth <= r.rc /\ h.depth < 255 /\ ~Bit(r.tf, TF_PRIO), "C02", "relock-beyond-rcount", e,
                          [rid |-> r.id, lid |-> r.lid, depth |-> h.depth, rc |-> r.rc])
-             nh == [h EXCEPT !.depth = @ + 1, !.cnt = r.cnt, !.rc = r.rc, !.rids = {r.id},
+             \* the unlimited-expiry flag with Expried = 0xffff (the "keep the deadline" word, see LockUpdate): the statement
+             \* does not say whether such a re-lock makes the hold unlimited or leaves its deadline alone - both readings
+             \* are accepted: the hold may end from its old deadline on, and no lateness is claimed
+             keep == Bit(r.ef, EF_UNLIMITED) /\ r.ex = 65535
+             nh == IF keep
+                   THEN [h EXCEPT !.depth = @ + 1, !.cnt = r.cnt, !.rc = r.rc, !.rids = {r.id}, !.hi = INF]
+                   ELSE [h EXCEPT !.depth = @ + 1, !.cnt = r.cnt, !.rc = r.rc, !.rids = {r.id},
                              !.lo = IF Bit(r.ef, EF_UNLIMITED) THEN INF ELSE e.t + ExpriedS(r),
                              !.hi = IF Bit(r.ef, EF_UNLIMITED) THEN INF ELSE e.t + ExpriedS(r),
                              !.short = (~Bit(r.ef, EF_UNLIMITED) /\ e.t + ExpriedS(r) < h.lo),
@@ -411,6 +417,24 @@ StepSnap(mm0, e) ==
                                                cnt |-> e.keys[i].waiters[1].cnt,
                                                outstanding |-> DepthSum(SnapKeyHolds(mm, e.keys[i]))] : i \in Stuck})])
               ELSE mm
+        \* C04, the same sentence judged on the REQUESTS: the live queued requests of a key are, by definition, the lock
+        \* requests whose call returned without an answer and that have not been answered, cancelled or timed out since -
+        \* whether or not the server's own queue structure still contains them (a request that fell out of the structure
+        \* is still "queued" for its client: it is never granted, only timed out).  The head is the one the statement's
+        \* order puts first (priority descending, arrival ascending).  Judged in sequential histories on a leader (the
+        \* snapshot point is then quiescent by construction and the event order is the order of the critical sections);
+        \* keys with a wait-until-unlocked or ack-pending request in their queue are left to the snapshot clause above.
+        LiveQ(k) == SelectSeq(WqOf(mm, k), LAMBDA id : mm.reqs[id].st = "queued")
+        Plain(k) == \A j \in 1..Len(LiveQ(k)) : ~Bit(mm.reqs[LiveQ(k)[j]].tf, TF_WAITUNLOCK) /\ ~Bit(mm.reqs[LiveQ(k)[j]].tf, TF_ACK)
+        HeadId(Q) == LET P == Max({Prio(mm.reqs[Q[j]]) : j \in 1..Len(Q)})
+                     IN Q[Min({j \in 1..Len(Q) : Prio(mm.reqs[Q[j]]) = P})]
+        StuckEv == {k \in DOMAIN mm.wq : LiveQ(k) # <<>> /\ Plain(k)
+                                           /\ AdmissibleStmt(HoldsOf(mm, k), mm.reqs[HeadId(LiveQ(k))].cnt)}
+        m1b == IF mm.seq /\ mm.status = 1
+               THEN Check(m1, StuckEv = {}, "C04", "admissible-queued-request-not-served", e,
+                          [keys |-> SetToSeq({[db |-> k[1], key |-> k[2], rid |-> HeadId(LiveQ(k)), cnt |-> mm.reqs[HeadId(LiveQ(k))].cnt,
+                                                queued |-> Len(LiveQ(k)), outstanding |-> DepthSum(HoldsOf(mm, k))] : k \in StuckEv})])
+               ELSE m1
         \* C17: STATE counters equal the true numbers
         Dbs == {mm.reqs[id].db : id \in DOMAIN mm.reqs}
         TrueLocked(d) == FoldSet(LAMBDA k, acc : acc + DepthSum(mm.holds[k]), 0, {k \in DOMAIN mm.holds : k[1] = d})
@@ -422,7 +446,7 @@ StepSnap(mm0, e) ==
         BadLocked == {d \in Dbs : DbName(d) \in DOMAIN e.st /\ e.st[DbName(d)].locked # TrueLocked(d)}
         BadWait   == {d \in Dbs : DbName(d) \in DOMAIN e.st /\ e.st[DbName(d)].wait # TrueWait(d)}
         BadKeys   == {d \in Dbs : DbName(d) \in DOMAIN e.st /\ e.st[DbName(d)].keys < BusyKeys(d)}
-        m2 == Check(m1, BadLocked = {}, "C17", "state-lockedcount-wrong", e,
+        m2 == Check(m1b, BadLocked = {}, "C17", "state-lockedcount-wrong", e,
                     [dbs |-> SetToSeq({[db |-> d, reported |-> e.st[DbName(d)].locked, truth |-> TrueLocked(d)] : d \in BadLocked})])
         m3 == Check(m2, BadWait = {}, "C17", "state-waitcount-wrong", e,
                     [dbs |-> SetToSeq({[db |-> d, reported |-> e.st[DbName(d)].wait, truth |-> TrueWait(d)] : d \in BadWait})])
@@ -457,8 +481,8 @@ StepSnap(mm0, e) ==
         AllK == (DOMAIN mm.holds) \cup {<<e.keys[i].db, e.keys[i].key>> : i \in K}
         Diff == {kk \in AllK : SnapLids(kk) # (IF kk \in DOMAIN mm.holds THEN MonLids(kk) ELSE {})}
         m6 == IF mm.status # 1 /\ mm.seq
-              THEN Check(m1, Diff = {}, "C10", "non-leader-holds-changed", e, [keys |-> SetToSeq(Diff)])
-              ELSE m1
+              THEN Check(m1b, Diff = {}, "C10", "non-leader-holds-changed", e, [keys |-> SetToSeq(Diff)])
+              ELSE m1b
     IN learn(IF mm.seq /\ mm.status = 1 THEN m5b ELSE m6)
 
 -----------------------------------------------------------------------------
